@@ -84,6 +84,8 @@ def gen_program(rng, cluster, n_ops, first=None, about=(), derive=False):
                 op = {"op": "get_loader", "h": rng.randrange(n_handles), "t": t}
             elif r < 0.92:
                 op = {"op": "dump", "h": rng.randrange(n_handles), "t": t, "o": rng.choice(pools.dump_battery(t))}
+                if rng.random() < 0.15:
+                    op["infer"] = True      # dump(obj): the type is inferred from the object
             else:
                 op = {"op": "get_dumper", "h": rng.randrange(n_handles), "t": t}
         if op["op"] in ("get_loader", "get_dumper"):
